@@ -310,6 +310,7 @@ def foam_replay(chk, b, cases, wd):
     for l, c in zip(lines, cases):
         ev = json.loads(l)
         ev["node"] = c["node"]
+        ev["case"] = {"adm": c["adm"], "asw": c["asw"]}
         for k, v in (("tend", 0), ("back", nil), ("hdr", []), ("unit", False), ("wb", []), ("constc", -1), ("posv", []), ("fmts", nil)):
             ev.setdefault(k, v)
         evs.append(ev)
@@ -336,13 +337,15 @@ def foam_replay(chk, b, cases, wd):
             ev = evs[bad["l"] - 1]
             if ev["ev"] == "Tags":
                 raise vlib.MachineryError("FoamCodec.tla and the compiled foam.h disagree: " + bad["why"])
-            bads.setdefault((ev["node"]["tag"], bad["why"].split(":")[0]), []).append((bad, ev))
-    for (tag, what), lst in sorted(bads.items()):
+            # hazard: the format foamTagFormat is transcribed to choose does not fit the node (FoamCodec.tla: ChoiceOK fails)
+            hz = bool(ev["case"]["asw"] not in ev["case"]["adm"])
+            bads.setdefault((ev["node"]["tag"], bad["why"].split(":")[0], hz), []).append((bad, ev))
+    for (tag, what, hz), lst in sorted(bads.items()):
         bad, ev = lst[0]
         chk.violation("FOAM byte codec, %s node: %s (%d nodes of the family, first: %s)" % (tag, bad["why"], len(lst), node_text(ev["node"])[:160]),
                       {"why": [x[0]["why"] for x in lst][:10], "nodes": [node_text(x[1]["node"])[:300] for x in lst[:10]],
                        "bytes": ev["bytes"][:200], "read_back": node_text(ev["back"])[:300], "fault": ev.get("fault")},
-                      key={"codec": "foam", "tag": tag, "what": what})
+                      key={"codec": "foam", "tag": tag, "what": what, "transcribed_choice_fits": not hz})
     for c in cases:
         chk.case(("foamcodec", node_text(c["node"])[:120]), nontrivial=any(f != 1 for f in c["adm"]))
     chk.traces += len(cases)
